@@ -23,7 +23,7 @@ structure Loc.Fresh (h : Nat) (path : List Frame) (l : List HTree) (k : HTree) (
 theorem Loc.nodup {roots h path l k r} (lc : Loc roots h path l k r) (nd : (handlesList roots).Nodup) :
     (pathHandles path ++ (handlesList l ++ (h :: handlesList k.kids ++ handlesList r))).Nodup := by
   have := nodup_plug.mp (lc.eq ▸ nd)
-  simpa [handles_eq k, lc.hk] using this
+  simpa [fi_handles_eq k, lc.hk] using this
 
 theorem Loc.fresh {roots h path l k r} (lc : Loc roots h path l k r) (nd : (handlesList roots).Nodup) :
     Loc.Fresh h path l k r := by
@@ -104,9 +104,9 @@ theorem ctx?_of_loc_nil (lc : Loc f.roots h [] l k r) (nd : f.allHandles.Nodup) 
   intro x hx hc
   apply hf.right
   obtain ⟨a, b, rfl⟩ := List.append_of_mem hx
-  simp only [handlesList_append, handlesList_cons, List.mem_append]
+  simp only [fi_handlesList_append, handlesList_cons, List.mem_append]
   refine Or.inr (Or.inl ?_)
-  rw [handles_eq]; exact List.mem_cons_of_mem _ hc
+  rw [fi_handles_eq]; exact List.mem_cons_of_mem _ hc
 
 theorem ancestors_of_loc (lc : Loc f.roots h path l k r) (nd : f.allHandles.Nodup) :
     f.ancestors h = h :: (path.map (·.h)).reverse := by
@@ -121,7 +121,7 @@ theorem map_replaceBelow_of_loc (g : HTree → List HTree) {fr : Frame} {rest : 
     (lc : Loc f.roots h (fr :: rest) l k r) (nd : f.allHandles.Nodup) :
     f.roots.map (replaceBelow h g) = plug (fr :: rest) (l ++ g k ++ r) := by
   have hf := lc.fresh nd
-  rw [lc.eq, map_replaceBelow_eq h g _ (root_handle_ne_of_plug_cons hf.path)]
+  rw [lc.eq, fi_map_replaceBelow_eq h g _ (root_handle_ne_of_plug_cons hf.path)]
   exact replaceKids_plug h g _ l k r lc.hk hf.path hf.left
 
 theorem filter_ne_of_loc_nil (lc : Loc f.roots h [] l k r) (nd : f.allHandles.Nodup) :
@@ -266,7 +266,7 @@ theorem cut_perm {f f' : Forest} {h : Nat} {t : HTree} (nd : f.allHandles.Nodup)
   rw [lc.eq]
   refine ((handlesList_plug_perm path (l ++ r)).append_right _).trans
     (List.Perm.trans ?_ (handlesList_plug_perm path (l ++ k :: r)).symm)
-  simp only [handlesList_append, handlesList_cons, List.append_assoc]
+  simp only [fi_handlesList_append, handlesList_cons, List.append_assoc]
   exact List.Perm.append_left _ (List.Perm.append_left _ List.perm_append_comm)
 
 theorem cut_none {f f' : Forest} {h : Nat} (hc : f.cut h = (f', none)) : f' = f := by
@@ -290,7 +290,7 @@ theorem placeAfter_perm {f : Forest} {ref : Nat} (t : HTree) (nd : f.allHandles.
     rw [lc.eq]
     refine (handlesList_plug_perm _ _).trans
       (List.Perm.trans ?_ ((handlesList_plug_perm _ _).symm.append_right _))
-    simp only [handlesList_append, handlesList_cons, List.append_assoc]
+    simp only [fi_handlesList_append, handlesList_cons, List.append_assoc]
     refine List.Perm.append_left _ (List.Perm.append_left _ (List.Perm.append_left _ ?_))
     exact List.perm_append_comm
 
@@ -307,7 +307,7 @@ theorem placeBefore_perm {f : Forest} {ref : Nat} (t : HTree) (nd : f.allHandles
     rw [lc.eq]
     refine (handlesList_plug_perm _ _).trans
       (List.Perm.trans ?_ ((handlesList_plug_perm _ _).symm.append_right _))
-    simp only [handlesList_append, handlesList_cons, List.append_assoc]
+    simp only [fi_handlesList_append, handlesList_cons, List.append_assoc]
     refine List.Perm.append_left _ (List.Perm.append_left _ ?_)
     refine List.perm_append_comm.trans ?_
     simp only [List.append_assoc]
@@ -327,7 +327,7 @@ theorem placeLast_perm {f : Forest} {p : Nat} (t : HTree) (nd : f.allHandles.Nod
   rw [lc.eq]
   refine (handlesList_plug_perm _ _).trans
     (List.Perm.trans ?_ ((handlesList_plug_perm _ _).symm.append_right _))
-  simp only [handlesList_append, handlesList_cons, List.append_assoc, handles_setKids, handles_eq k,
+  simp only [fi_handlesList_append, handlesList_cons, List.append_assoc, handles_setKids, fi_handles_eq k,
     handlesList_nil, List.append_nil, List.cons_append]
   refine List.Perm.append_left _ (List.Perm.append_left _ (List.Perm.cons _ (List.Perm.append_left _ ?_)))
   exact List.perm_append_comm
@@ -342,7 +342,7 @@ theorem placeFirst_perm {f : Forest} {p : Nat} (t : HTree) (nd : f.allHandles.No
   rw [lc.eq]
   refine (handlesList_plug_perm _ _).trans
     (List.Perm.trans ?_ ((handlesList_plug_perm _ _).symm.append_right _))
-  simp only [handlesList_append, handlesList_cons, List.append_assoc, handles_setKids, handles_eq k,
+  simp only [fi_handlesList_append, handlesList_cons, List.append_assoc, handles_setKids, fi_handles_eq k,
     List.cons_append]
   refine List.Perm.append_left _ (List.Perm.append_left _ (List.Perm.cons _ ?_))
   refine List.perm_append_comm.trans ?_
@@ -361,7 +361,7 @@ theorem spliceOut_perm {f : Forest} {h : Nat} (nd : f.allHandles.Nodup) (hl : f.
     rw [lc.eq]
     refine ((handlesList_plug_perm _ _).append_right _).trans
       (List.Perm.trans ?_ (handlesList_plug_perm _ _).symm)
-    simp only [handlesList_append, handlesList_cons, List.append_assoc, handles_eq k, lc.hk,
+    simp only [fi_handlesList_append, handlesList_cons, List.append_assoc, fi_handles_eq k, lc.hk,
       List.cons_append]
     refine List.Perm.append_left _ (List.Perm.append_left _ ?_)
     rw [← List.append_assoc]
@@ -378,7 +378,7 @@ theorem spliceOut_perm {f : Forest} {h : Nat} (nd : f.allHandles.Nodup) (hl : f.
       refine List.Perm.trans ?_ (key c)
       refine List.Perm.append_right _ ?_
       unfold allHandles
-      simp only [plug_nil, handlesList_append, List.append_assoc]
+      simp only [plug_nil, fi_handlesList_append, List.append_assoc]
       exact List.Perm.append_left _ List.perm_append_comm
     split
     · exact key2 f.corrupt
